@@ -57,7 +57,7 @@ def expected_view(p, whole):
     """Projection of the hierarchy snapshot through W for process p."""
     view = {}
     for port, s in p['schema'].items():
-        if '_default' not in s:
+        if s != '**' and '_default' not in s:
             view[port] = {}
     globs = {tuple(g['view']): g for g in p['globs']}
     for port in p['outputs']:
